@@ -19,6 +19,8 @@ PY
 }
 if ! git apply --check $S/patch.diff 2>>$LOG; then res $SID 0 0 0 0 $HEAD; echo "$SID: patch does not apply"; exit 1; fi
 git apply $S/patch.diff
+# leftovers of earlier runs make s3s-fs::it_aws::test_list_buckets (which lists the whole root) fail more and more often
+rm -rf target/tmp/s3s-fs-tests-aws
 echo "### baseline with change" >> $LOG
 if CARGO_NET_OFFLINE=true cargo test --workspace --no-fail-fast --offline >> $LOG 2>&1; then BASE=1; else
   # the s3s-fs::it_aws tests race with each other under load (3 are listed as flaky in BASELINE.json; test_list_buckets also
